@@ -176,13 +176,14 @@ CHECKS["C06"] = dict(
 
 CHECKS["C07"] = dict(
     level_text="The real Receive (packet loop, validators, dynamic walker, diff, DiskWriter, async data pipes) is executed symbolically on the model file system against an independent reference sender, for every legal STAT sequence, prior destination and DATA chunking inside the bounds: REQ ids are exactly the STAT positions of the regular non-link entries that differ, each once; stored bytes are the payload concatenation; FIN comes after all content; success only after the echo and end of stream; the destination equals the source view.",
-    level_note="Bounds: source over {d, d/f, e} (dir, regular, symlink, fifo, hard link), symbolic permission/special bits, uid, gid, mtimes from 2 values, files of 0..2 (quick) / 0..3 (thorough) symbolic bytes, chunkings of every composition; prior destination per path in {absent, identical, other file, other dir with a stale child, symlink} plus a stale extra entry. " + FS_TRUST + BASE_TRUST,
+    level_note="Bounds: source over {d, d/f, e} (dir, regular, symlink, fifo, hard link), symbolic permission/special bits, uid, gid, mtimes from 2 values (a sub-second instant and the epoch; one obligation with a pre-epoch fractional instant and x.999999999 s), files of 0..2 (quick) / 0..3 (thorough) symbolic bytes, chunkings of every composition; prior destination per path in {absent, identical, other file, other dir with a stale child, symlink} plus a stale extra entry. " + FS_TRUST + BASE_TRUST,
     assumptions=["two deterministic schedules (run-until-block, and the same with receiver-side SendMsg latency); other interleavings and 1 MiB chunks are outside the claim", "synthetic stats only (no disk on the sending side)"],
     obligations=[
         ob("VH_C07_receiver", dict(SHAPE=0, MAXB=1), covers=["requested", "not-requested", "done"], bounds="source {d, e}, files <=1 byte"),
         ob("VH_C07_receiver", dict(SHAPE=1, MAXB=2), covers=["requested", "not-requested", "done"], bounds="source {d, d/f}, files <=2 bytes"),
         ob("VH_C07_receiver", dict(SHAPE=0, MAXB=0, LN=1), covers=["requested", "not-requested", "done"], bounds="plain transfer whose source may hold a root-level regular file named .fsutil-metadata"),
         ob("VH_C07_receiver", dict(SHAPE=1, MAXB=1, LAT=1), covers=["requested", "not-requested", "done"], bounds="source {d, d/f}; second deterministic schedule: the receiver's SendMsg returns after the peer reacted (DATA can overtake the return of the REQ call)"),
+        ob("VH_C07_receiver", dict(SHAPE=1, MAXB=1, MT=1), covers=["requested", "not-requested", "done"], bounds="source {d, d/f} with mtimes from {1.25 s before the epoch, the last nanosecond of a second}"),
         ob("VH_C07_receiver", dict(SHAPE=2, MAXB=2), T, covers=["requested", "not-requested", "done"], bounds="source {d, d/f, e} incl. hard link, files <=2 bytes", max_paths=2000000),
         ob("VH_C07_receiver", dict(SHAPE=2, MAXB=1, LAT=1), T, covers=["requested", "not-requested", "done"], bounds="source {d, d/f, e} incl. hard link under the latency schedule", max_paths=2000000),
         ob("VH_C07_receiver", dict(SHAPE=1, MAXB=3), T, covers=["requested", "not-requested", "done"], bounds="source {d, d/f}, files <=3 bytes, every chunking"),
@@ -218,6 +219,7 @@ CHECKS["C01"] = dict(
         ob("VH_C01_e2e", dict(S=8, D=5, MAXB=1, NZ=1), Q, covers=["done"], bounds="source {d, d/f, e}, files <=1 byte, every dirty prior destination, non-zero ids", max_steps=5000000),
         ob("VH_C01_e2e", dict(S=3, D=2, MAXB=1, NZ=1), Q, covers=["done"], bounds="source {d, d/f, h, l}, prior destination empty or stale file, non-zero ids", max_steps=5000000),
         ob("VH_C01_e2e", dict(S=18, D=6, MAXB=0, NZ=1), Q, covers=["done"], bounds="source {d, d/f, l -> d/f or d, zl = optional second name of the symlink inode}, every dirty prior destination incl. a directory where the source has the symlink", max_steps=5000000),
+        ob("VH_C01_e2e", dict(S=8, D=2, MAXB=1, NZ=1, MT=1), Q, covers=["done"], bounds="source {d, d/f, e} with mtimes from {1.25 s before the epoch, the last nanosecond of a second}", max_steps=5000000),
         ob("VH_C01_e2e", dict(S=4, D=1, MAXB=1, NZ=1), Q, covers=["done"], bounds="source {d, d/f, p(fifo/char device)}, fresh destination, non-zero ids", max_steps=5000000),
         ob("VH_C01_e2e", dict(S=0, D=2, MAXB=1, NZ=1, X=1), Q, covers=["done"], bounds="source {d, d/f} with optional user.* xattrs on both, prior destination empty or stale file", max_steps=5000000),
         ob("VH_C01_e2e", dict(S=8, D=6, MAXB=0, NZ=1, MERGE=1), Q, covers=["done", "merge", "kept-stale"], bounds="merge mode: source {d, d/f, e}, every dirty prior destination; result = overlay, nothing deleted that the source does not replace", max_steps=5000000),
